@@ -102,6 +102,37 @@ func (m *Smt) define(hint, sort, term string) string {
 	return name
 }
 
+// dependsOn: does term mention (transitively through definitions) any of the symbols?
+func (m *Smt) dependsOn(term string, syms map[string]bool) bool {
+	m.mu.Lock()
+	defer m.mu.Unlock()
+	seen := map[string]bool{}
+	var work []string
+	scan := func(t string) bool {
+		for _, id := range identRe.FindAllString(t, -1) {
+			if syms[id] {
+				return true
+			}
+			if _, ok := m.syms[id]; ok && !seen[id] {
+				seen[id] = true
+				work = append(work, id)
+			}
+		}
+		return false
+	}
+	if scan(term) {
+		return true
+	}
+	for len(work) > 0 {
+		id := work[len(work)-1]
+		work = work[:len(work)-1]
+		if d := m.syms[id].Def; d != "" && scan(d) {
+			return true
+		}
+	}
+	return false
+}
+
 func (m *Smt) declFun(name, decl string) {
 	m.mu.Lock()
 	defer m.mu.Unlock()
